@@ -23,6 +23,9 @@ pub enum ScalarSpec {
     U64Max,
     /// uniformly random element expanded from a seed
     Rand(u64),
+    /// 256-bit integer (reduced mod p) whose four 64-bit limbs are each 0, 1, all-ones or
+    /// pseudo-random: bits 0-7 select the limb kinds, the rest seeds the random limbs
+    Limbs(u16),
 }
 
 impl ScalarSpec {
@@ -37,6 +40,20 @@ impl ScalarSpec {
             ScalarSpec::Half => (-F::one()) * F::from(2u64).inverse().unwrap(),
             ScalarSpec::InvSmall(k) => F::from((*k).max(1)).inverse().unwrap(),
             ScalarSpec::U64Max => F::from(u64::MAX),
+            ScalarSpec::Limbs(p) => {
+                let mut bytes = [0u8; 32];
+                for l in 0..4 {
+                    let kind = (p >> (2 * l)) & 3;
+                    let v: u64 = match kind {
+                        0 => 0,
+                        1 => 1,
+                        2 => u64::MAX,
+                        _ => (*p as u64 + 1).wrapping_mul(0x9e37_79b9_7f4a_7c15).rotate_left(17 * (l as u32 + 1)) | 1,
+                    };
+                    bytes[8 * l..8 * l + 8].copy_from_slice(&v.to_le_bytes());
+                }
+                F::from_le_bytes_mod_order(&bytes)
+            }
             ScalarSpec::Rand(seed) => {
                 let mut s = [0u8; 32];
                 s[..8].copy_from_slice(&seed.to_le_bytes());
@@ -47,11 +64,11 @@ impl ScalarSpec {
         }
     }
     pub fn is_zero_spec(&self) -> bool {
-        matches!(self, ScalarSpec::Zero | ScalarSpec::Small(0) | ScalarSpec::NegSmall(0))
+        matches!(self, ScalarSpec::Zero | ScalarSpec::Small(0) | ScalarSpec::NegSmall(0)) || matches!(self, ScalarSpec::Limbs(p) if p & 0xff == 0)
     }
     /// any class (zero included)
     pub fn gen(ch: &mut Choices) -> ScalarSpec {
-        match ch.weighted(&[6, 8, 5, 18, 6, 8, 3, 4, 3, 39]) {
+        match ch.weighted(&[6, 8, 5, 18, 6, 8, 3, 4, 3, 33, 6]) {
             0 => ScalarSpec::Zero,
             1 => ScalarSpec::One,
             2 => ScalarSpec::MinusOne,
@@ -61,12 +78,13 @@ impl ScalarSpec {
             6 => ScalarSpec::Half,
             7 => ScalarSpec::InvSmall(2 + ch.byte() as u64),
             8 => ScalarSpec::U64Max,
-            _ => ScalarSpec::Rand(ch.u16() as u64),
+            9 => ScalarSpec::Rand(ch.u16() as u64),
+            _ => ScalarSpec::Limbs(ch.u16()),
         }
     }
     /// a class that is never the zero element
     pub fn gen_nonzero(ch: &mut Choices) -> ScalarSpec {
-        match ch.weighted(&[14, 8, 12, 6, 8, 3, 4, 3, 42]) {
+        match ch.weighted(&[14, 8, 12, 6, 8, 3, 4, 3, 36, 6]) {
             0 => ScalarSpec::One,
             1 => ScalarSpec::MinusOne,
             2 => ScalarSpec::Small(1 + (ch.byte() as u64 % 255)),
@@ -75,7 +93,8 @@ impl ScalarSpec {
             5 => ScalarSpec::Half,
             6 => ScalarSpec::InvSmall(2 + ch.byte() as u64),
             7 => ScalarSpec::U64Max,
-            _ => ScalarSpec::Rand(ch.u16() as u64),
+            8 => ScalarSpec::Rand(ch.u16() as u64),
+            _ => ScalarSpec::Limbs(ch.u16() | 0x00c0), // top limb pseudo-random: never zero
         }
     }
     pub fn short(&self) -> String {
@@ -90,6 +109,7 @@ impl ScalarSpec {
             ScalarSpec::InvSmall(k) => format!("1/{}", k),
             ScalarSpec::U64Max => "2^64-1".into(),
             ScalarSpec::Rand(s) => format!("rnd#{}", s),
+            ScalarSpec::Limbs(p) => format!("limbs#{:04x}", p),
         }
     }
 }
